@@ -212,8 +212,31 @@ func c15Specs(quick bool) []*SeqSpec {
 		op(1, withTF(withData(L(0, 1, 3, 0, 9, 1, 0), inc), tfAck)),
 		op(0, U(0, 1, 1)), op(1, U(0, 1, 2)), tick(500 * ms),
 	}
+	// values with a property header, and number operands shorter / longer than 8 bytes
+	props := []*protocol.LockCommandDataProperty{protocol.NewLockCommandDataProperty(protocol.LOCK_DATA_PROPERTY_CODE_KEY, []byte("k"))}
+	rawIncr := func(flag byte, hdr []byte, payload ...byte) []byte {
+		body := append(append([]byte{2, flag}, hdr...), payload...)
+		return append([]byte{byte(len(body)), 0, 0, 0}, body...)
+	}
+	ph := []byte{4, 0, 1, 1, 0, 'k'} // property area: one KEY property "k"
+	var pa []SeqOp
+	for _, dd := range [][]byte{
+		vd(protocol.NewLockCommandDataSetStringWithProperty("abc", props)),
+		vd(protocol.NewLockCommandDataSetString("xy")),
+		vd(protocol.NewLockCommandDataIncrDataWithProperty(3, props)),
+		vd(protocol.NewLockCommandDataIncrData(2)),
+		rawIncr(0x01, nil, 5, 0, 0, 0),                         // 4-byte operand
+		rawIncr(0x11, ph, 5, 0, 0, 0),                          // 4-byte operand behind a property header
+		rawIncr(0x01, nil, 1, 0, 0, 0, 0, 0, 0, 0, 9, 9),       // 10-byte operand
+		vd(protocol.NewLockCommandDataAppendStringWithProperty("q", props)),
+		vd(protocol.NewLockCommandDataShiftData(1)),
+	} {
+		pa = append(pa, op(0, withData(L(0, 1, 1, 0, 9, 1, 5), dd)))
+	}
+	pa = append(pa, op(0, U(0, 1, 1)))
 	return []*SeqSpec{{Name: "value-register", Cfg: cfg, Alphabet: a, Depth: d, MaxStates: 300000},
-		{Name: "value-register-acked", Cfg: cfg, Alphabet: ack, Depth: d + 1, MaxStates: 300000}}
+		{Name: "value-register-acked", Cfg: cfg, Alphabet: ack, Depth: d + 1, MaxStates: 300000},
+		{Name: "value-register-property-headers", Cfg: cfg, Alphabet: pa, Depth: d, MaxStates: 300000}}
 }
 
 func init() {
